@@ -112,7 +112,11 @@ fn canonical(prop: &str, thorough: bool, seed: u64, rep: &mut Report) {
     // longer than any inline capacity -- 16, 32 units -- and differ only after it)
     let keys = ["", "a", "b", "aa", "\u{e000}", "\u{10000}", "\u{ffff}", "\u{1F600}", "\u{e9}", "A", "\n", "\u{7f}/", "\u{1f}\"\\", "\u{2028}",
         "urn:example:item:b", "urn:example:item:a", "urn:example:item:", "0123456789abcdef", "0123456789abcdefg", "0123456789abcde\u{1F600}b", "0123456789abcde\u{1F600}a",
-        "0123456789abcdef0123456789abcdef-z", "0123456789abcdef0123456789abcdef-y", "0123456789abcdef0123456789abcde\u{e000}", "0123456789abcdef0123456789abcde\u{10000}"];
+        "0123456789abcdef0123456789abcdef-z", "0123456789abcdef0123456789abcdef-y", "0123456789abcdef0123456789abcde\u{e000}", "0123456789abcdef0123456789abcde\u{10000}",
+        // supplementary characters that share a lead surrogate (D83D: U+1F600 / U+1F601; D800: U+10000 / U+10001 / U+103FF) or
+        // differ in it (D801: U+10400), alone and followed by a character that would decide the other way; the BMP neighbours
+        // of the surrogate range
+        "\u{1F601}", "\u{1F600}b", "\u{1F601}a", "\u{10001}", "\u{103FF}", "\u{10400}", "\u{103FF}z", "\u{10400}a", "\u{10FFFF}", "\u{d7ff}", "\u{d7ff}z", "\u{ffff}a", "a\u{1F601}", "a\u{1F600}b", "\u{e000}\u{10000}", "\u{10000}\u{e000}"];
     // (the reference rendering of every number: nearest double, ECMAScript text; the RFC table is a self-check of it)
     let num_ident = |s: &str| -> String { ref_number(s) };
     rep.rule = "objects over keys that separate UTF-16 order from code-point order (U+E000, U+FFFF vs non-BMP), nested two levels, all number spellings of the RFC 8785 table; compared with: sort by UTF-16 units at every level + reference compact serializer; non-trivial = at least two members".into();
@@ -125,6 +129,16 @@ fn canonical(prop: &str, thorough: bool, seed: u64, rep: &mut Report) {
             if &got != want { rep.violation("number rendering (dependency: json-number/ryu-js)", &format!("number:{}", spelling), spelling.to_string(), format!("real={} expected={}", got, want)); }
             if &ref_number(spelling) != want { rep.violation("(reference self-check) es6 rendering of the RFC table", "refself", spelling.to_string(), ref_number(spelling)); }
         }
+        // member order, exhaustively for every ordered pair of the keys above (values that would order the
+        // other way when keys tie): the two-member object must come out in UTF-16 order
+        rep.checks.push("C09: every ordered pair of keys (supplementary characters sharing / not sharing a lead surrogate, surrogate-range neighbours, long shared prefixes): two-member objects come out in UTF-16 order".into());
+        for (i, k1) in keys.iter().enumerate() { for (j, k2) in keys.iter().enumerate() { if i == j { continue; }
+            let v = RefValue::Obj(vec![(k1.to_string(), RefValue::Num("2".into())), (k2.to_string(), RefValue::Num("1".into()))]);
+            let got = canon_text(&v);
+            rep.eval(true, fnv(got.as_bytes()));
+            let mut want = String::new(); ref_compact(&ref_canon(&v, &num_ident), &mut want);
+            if got != want { rep.violation("canonical output == RFC 8785 reference", "canon-pair", format!("{:?}", v), format!("real={:?} reference={:?}", got, want)); }
+        } }
         // long decimals (more digits than a double holds), exponent shifts, near-halfway spellings,
         // the thresholds of the exponential notation, subnormals: the double must be the NEAREST one
         rep.checks.push("C09: numbers with 17..40 significant digits, near-halfway decimals, notation thresholds == nearest double, ECMAScript rendering".into());
